@@ -40,3 +40,75 @@ def first_mz(F: "bytes", lo: "int", hi: "int", maxrange: "int") -> "int":
     if valid_mz(F, lo, maxrange):
         return lo
     return first_mz(F, lo + 1, hi, maxrange)
+
+
+@specfn
+def sec_hit(F: "bytes", base: "int", j: "int", rva: "int") -> "bool":
+    """section j (40-byte headers from base; VirtualSize at +8, VirtualAddress at +12) contains the RVA"""
+    return u32le(F, base + 40 * j + 12) <= rva and rva < u32le(F, base + 40 * j + 12) + u32le(F, base + 40 * j + 8)
+
+
+@spec
+def first_sec(F: "bytes", base: "int", k: "int", n: "int", rva: "int") -> "int":
+    """index of the first section in [k, n) containing the RVA, -1 if none"""
+    if k >= n:
+        return -1
+    if sec_hit(F, base, k, rva):
+        return k
+    return first_sec(F, base, k + 1, n, rva)
+
+
+@spec
+def pe_compile_stamp(F: "bytes", o: "int") -> "int":
+    """TimeDateStamp of the COFF file header of the image at o"""
+    return u32le(F, o + s32le(F, o + 60) + 4 + 4)
+
+
+@spec
+def pe_export_stamp(F: "bytes", o: "int") -> "int":
+    """TimeDateStamp of the export directory of the image at o, located through the first section that contains
+    the export RVA; -1 when the headers are truncated, no section contains it or the directory is out of the file"""
+    coff = o + s32le(F, o + 60) + 4
+    x64 = u16le(F, coff) == 34404
+    opt = coff + 20
+    optsize = 240 if x64 else 224
+    if opt + optsize > len(F):
+        return -1
+    rva = u32le(F, opt + (112 if x64 else 96))
+    nsec = u16le(F, coff + 2)
+    base = opt + optsize
+    if base + 40 * nsec > len(F):
+        return -1
+    j = first_sec(F, base, 0, nsec, rva)
+    if j == -1:
+        return -1
+    off = rva - u32le(F, base + 40 * j + 12) + u32le(F, base + 40 * j + 20) + o
+    if off + 40 > len(F):
+        return -1
+    return u32le(F, off + 4)
+
+
+@spec
+def raw_sum(F: "bytes", base: "int", k: "int") -> "int":
+    """sum of SizeOfRawData (at +16 of each 40-byte section header) over the first k sections"""
+    if k <= 0:
+        return 0
+    return raw_sum(F, base, k - 1) + u32le(F, base + 40 * (k - 1) + 16)
+
+
+@spec
+def pe_total_size(F: "bytes", o: "int") -> "int":
+    """SizeOfHeaders plus the raw sizes of all sections of the image at o; -1 if the machine is neither x86 nor x64
+    or the headers are truncated"""
+    coff = o + s32le(F, o + 60) + 4
+    m = u16le(F, coff)
+    if not (m == 34404 or m == 332):
+        return -1
+    opt = coff + 20
+    optsize = 240 if m == 34404 else 224
+    if opt + optsize > len(F):
+        return -1
+    nsec = u16le(F, coff + 2)
+    if opt + optsize + 40 * nsec > len(F):
+        return -1
+    return u32le(F, opt + 60) + raw_sum(F, opt + optsize, nsec)
